@@ -151,6 +151,21 @@ def _run(rep, tier, seed, replay):
                 break
         rep.extra["late_sender_runs"] = len(late)
     if not replay and len(rep.violations) < 5:
+        # the target goes away and comes back: every line flushed while it is up arrives exactly once, also right after an outage
+        outs = [(rnd.choice([16, 30, 100, 1400]), rnd.randint(1, 3), rnd.randint(1, 4)) for _ in range(6 if tier == "quick" else 300)]
+        vf.write_lines(f"{d}/relayoutage.cases", ["%d %d %d" % x for x in outs])
+        for (pl, no, per), o in zip(outs, vf.run_hx("relayoutage", f"{d}/relayoutage.cases", timeout=3000)):
+            rep.count(1)
+            if o.startswith("SKIP"):
+                continue
+            arrived = dict(x.rsplit("=", 1) for x in o.split(" ")[1].split(",")) if o.startswith("arrived ") else {}
+            if not arrived or any(v != "1" for v in arrived.values()) or not o.endswith("notes=-"):
+                rep.violation("a line flushed while the relay target is up does not arrive exactly once after the target was down for a while",
+                              dict(packet_length=pl, outages=no, lines_per_phase=per, observed=o,
+                                   how="harness/cmd/hx/relayoutage.go: the UDP sink is closed and re-opened on the same port between phases; each line is followed by a tick"))
+                break
+        rep.extra["relay_outage_runs"] = len(outs)
+    if not replay and len(rep.violations) < 5:
         E2E.run_relay_latency(rep, "C17")
         rep.cov["rule"] += "; plus one real-time run of the built binary with --statsd.relay.address: 7 lines 300 ms apart, each must reach the sink within a second (the one-second tick)"
     rep.extra["disagreements_with_model"] = nbad
